@@ -1,66 +1,6 @@
-(* C14 — flat-integer interface of the model for the generic OCaml driver.
-   input  : mode qos cfs ratio n  then n records (rcf rc lcf lc rmf rm lmf lm)
-            (mode = which request builder the harness used; the model does not depend on it)
-   observable: 6 integers for the pod, then 6 per container in spec order:
-            sharesSet shares quotaSet quota memSet mem *)
+(* C14 — extraction of the wire-level entry points (defined in Codec.v) for the generic driver. *)
 From Coq Require Import List ZArith Bool.
-From Verif Require Import Lib.Wire C14.Model C14.Spec.
-Import ListNotations.
-Open Scope Z_scope.
-
-Definition opt_of (flag v : Z) : option Z := if flag =? 0 then None else Some v.
-
-Fixpoint decode_ctrs (k : nat) (l : list Z) : list ctr :=
-  match k, l with
-  | S k', a :: b :: c :: d :: e :: f :: g :: h :: t =>
-      mkCtr (opt_of a b) (opt_of c d) (opt_of e f) (opt_of g h) :: decode_ctrs k' t
-  | _, _ => []
-  end.
-
-Definition decode (inp : list Z) : cfg * list ctr :=
-  match inp with
-  | _mode :: q :: c :: k :: n :: t => (cfg_of_codes q c k, decode_ctrs (Z.to_nat n) t)
-  | _ => (cfg_of_codes 0 0 0, [])
-  end.
-
-Definition enc_opt (o : option Z) : list Z := match o with Some v => [1; v] | None => [0; 0] end.
-Definition enc_res (r : res) : list Z := enc_opt (shares r) ++ enc_opt (quota r) ++ enc_opt (mem r).
-Definition enc_obs (o : obs) : list Z := enc_res (fst o) ++ flat_map enc_res (snd o).
-
-Fixpoint dec_ress (fuel : nat) (l : list Z) : list res :=
-  match fuel, l with
-  | S f, a :: b :: c :: d :: e :: g :: t => mkRes (opt_of a b) (opt_of c d) (opt_of e g) :: dec_ress f t
-  | _, _ => []
-  end.
-
-(* a malformed observable (crash marker, error code, wrong length) decodes to too few
-   responses and fails clause 9 *)
-Definition dec_obs (l : list Z) : obs :=
-  match dec_ress (length l) l with
-  | p :: rs => (p, rs)
-  | [] => (untouched, [])
-  end.
-
-Definition well_sized (n : nat) (l : list Z) : bool := Nat.eqb (length l) (6 * (n + 1)).
-
-Definition run_case (inp : list Z) : list Z :=
-  let '(g, cs) := decode inp in enc_obs (run g cs).
-
-Definition prop_case (inp o : list Z) : Z :=
-  let '(g, cs) := decode inp in
-  if negb (well_sized (length cs) o) then 9 else prop_code g cs (dec_obs o).
-
-(* non-trivial: a best-effort pod with at least two containers naming a batch resource, CFS
-   quota enabled and a finite pod-level quota or memory limit (so sums, clamps and the
-   pod-versus-container comparison are all exercised) *)
-Definition nontrivial_case (inp : list Z) : bool :=
-  let '(g, cs) := decode inp in
-  be g && cfsOn g && (2 <=? Z.of_nat (length (spec_of cs)))
-  && (all_cpu_limited (spec_of cs) || all_mem_limited (spec_of cs)).
-
-Definition finding_sig (inp o : list Z) : Z :=
-  let '(g, cs) := decode inp in
-  if well_sized (length cs) o && d10_shape g cs (dec_obs o) then 1 else 0.
+From Verif Require Import C14.Codec.
 
 Require Extraction.
 Require Import ExtrOcamlBasic.
